@@ -435,10 +435,35 @@ def gen_tensor(g: G, m, shape, depth):
 
 
 def gen_integrand(g: G, m, depth):
+    """Integrand of one integral; for arity >= 1 sometimes placed inside a conditional (argument-dependent branches)."""
+    t = _gen_integrand(g, m, depth)
+    if len(g.spec["args"]) >= 1 and g.chance(g.profile.get("p_argcond", 0.08)):
+        a, b = gen_scalar(g, m, 1), gen_scalar(g, m, 0)
+        if g.complex:
+            a, b = ["real", a], ["real", b]
+        c = [g.pick(["lt", "gt", "le", "ge"]), a, b]
+        other = g.pick(["zero", "zero", "scaled", "negated"])
+        g.features.add("argument-inside-conditional:" + other)
+        if other == "zero":
+            return ["cond", c, t, ["lit", 0.0]] if g.chance(0.5) else ["cond", c, ["lit", 0.0], t]
+        if other == "scaled":
+            return ["cond", c, t, ["mul", ["lit", 0.25], t]]
+        return ["cond", c, t, ["neg", t]]
+    return t
+
+
+def _gen_integrand(g: G, m, depth):
     spec = g.spec
     arity = len(spec["args"])
     els = spec["elements"]
     K = gen_scalar(g, m, depth) if g.chance(0.8) else ["lit", 1.0]
+    k_on_test = g.chance(0.3)
+    if g.complex and arity >= 1 and g.chance(0.15):
+        # a bare complex literal in the conjugated slot of inner(): the kernel must use its conjugate
+        K = ["clit", g.pick(LITS), g.pick(LITS)]
+        k_on_test = True
+        g.features.add("lit:complex")
+        g.features.add("complex-literal-on-test-side")
     if arity == 0:
         t = gen_scalar(g, m, depth + 1)
         if K != ["lit", 1.0]:
@@ -452,6 +477,10 @@ def gen_integrand(g: G, m, depth):
             shv = ()
         Gt = gen_tensor(g, m, shv, max(depth - 1, 0))
         if K != ["lit", 1.0]:
+            if k_on_test:
+                # the scalar factor sits in the conjugated slot of inner(): in complex mode it must come out conjugated
+                g.features.add("factor-on-test-side")
+                return ["inner", Gt, ["mul", K, Lv]]
             Gt = ["mul", K, Gt]
         return ["inner", Gt, Lv]
     Lu = gen_linear(g, ["u"], els[spec["args"][1]], m)
@@ -469,12 +498,15 @@ def gen_integrand(g: G, m, depth):
             Mt = gen_tensor(g, m, (n, n), 0)
             Lu = ["dot", Mt, Lu]
             g.features.add("tensor-coefficient")
+    Lu0 = Lu
+    Lv_f = Lv
     if K != ["lit", 1.0]:
-        Lu0 = Lu
-        Lu = ["mul", K, Lu]
-    else:
-        Lu0 = Lu
-    term = ["inner", Lu, Lv]
+        if k_on_test:
+            g.features.add("factor-on-test-side")
+            Lv_f = ["mul", K, Lv]
+        else:
+            Lu = ["mul", K, Lu]
+    term = ["inner", Lu, Lv_f]
     if g.chance(g.profile.get("p_multiterm", 0.3)):
         # a second product of the same argument pair in the opposite operand order (test function first), so that
         # argument factorisation has to merge two contributions to one (test, trial) block
@@ -734,7 +766,9 @@ def spec_classes(spec):
     out += [f"measure:{m}" for m in sorted({i['m'] for i in spec["integrals"]})]
     out.append(f"nintegrals:{len(spec['integrals'])}")
     for f in spec.get("_features", []):
-        if f.startswith(("fun:", "op:", "geo:", "L:", "restr:", "transform:")) or f in ("split", "tensor-coefficient", "multiterm"):
+        if f.startswith(("fun:", "op:", "geo:", "L:", "restr:", "transform:", "argument-inside-conditional:")) or f in (
+                "split", "tensor-coefficient", "multiterm", "factor-on-test-side", "complex-literal-on-test-side", "quadrature-element-coefficient",
+                "tp-variant-sibling"):
             out.append(f)
     return out
 
